@@ -1,4 +1,3 @@
-import Lean  -- WORKAROUND only: checks/common.py's audit snippet uses `CoreM`/`collectAxioms` without importing Lean; nothing below uses it
 import HqModel.Auth.Model
 import HqModel.Auth.Trace
 import HqModel.Lemmas.AuthBasic
